@@ -169,35 +169,72 @@ func checkC17(c *an.Ctx) {
 		c.Und("C17.2", "config:error-sites", token.NoPos, "only %d error-returning calls found in the loading functions", nCalls)
 	}
 
-	// C17.3
-	for _, site := range p.CallSitesOf(ld) {
-		if site.Parent() != ld {
-			continue
+	// C17.3 (call sites in load itself or in a helper of the package it calls; values are followed through helper parameters)
+	importScope := p.Reach([]*ssa.Function{ld}, func(e an.CallEdge) bool {
+		return an.Outer(e.Callee).Pkg == ld.Pkg && e.Callee != ldir && e.Callee != ld
+	})
+	stopAtFile := func(x ssa.Value) bool { return x == ssa.Value(ld.Params[1]) }
+	isDirOfImporter := func(v ssa.Value) (bool, string) {
+		srcs := p.DeepSourcesStop(v, 3, true, stopAtFile)
+		if len(srcs) == 0 {
+			return false, an.FieldProv(v)
 		}
-		k := site.Common().Args[1]
-		prov := an.FieldProv(k)
-		// URL imports pass the entry itself; file imports pass Join(Dir(file), entry)
-		isURLBranch := false
-		for _, g := range an.Guards(site.Block()) {
-			if call, ok := g.Cond.(*ssa.Call); ok && an.ShortCallee(&call.Call) == "pkg/utils.IsURL" && g.Outcome {
-				isURLBranch = true
+		for _, s := range srcs {
+			call, ok := s.(*ssa.Call)
+			if !ok || (an.ShortCallee(&call.Call) != "path.Dir" && an.ShortCallee(&call.Call) != "path/filepath.Dir") {
+				return false, an.FieldProv(s)
+			}
+			for _, fs := range p.DeepSourcesStop(call.Call.Args[0], 3, true, stopAtFile) {
+				if prm, ok := fs.(*ssa.Parameter); !ok || prm != ld.Params[1] {
+					return false, "Dir(" + an.FieldProv(fs) + ")"
+				}
 			}
 		}
-		key := an.Short(ld) + ":import-path"
-		if isURLBranch {
-			c.OK("C17.3", key+"(url)", site.Pos(), "URL imports are loaded as given")
-			continue
-		}
-		good := strings.HasPrefix(prov, "path.Join([path.Dir(param:"+ld.Params[1].Name()+")") || strings.HasPrefix(prov, "filepath.Join([filepath.Dir(param:"+ld.Params[1].Name()+")")
-		c.Check(good, "C17.3", key+"(file)", site.Pos(), "file imports resolve against the importing file's directory", "an imported file is not loaded from Join(Dir(<importing file>), <entry>): "+prov)
+		return true, ""
 	}
-	for _, site := range p.CallSitesOf(ldir) {
-		if site.Parent() != ld {
-			continue
+	nPathSites := 0
+	for _, target := range []*ssa.Function{ld, ldir} {
+		for _, site := range p.CallSitesOf(target) {
+			g := site.Parent()
+			if _, in := importScope[g]; !in {
+				continue
+			}
+			nPathSites++
+			k := site.Common().Args[1]
+			// URL imports pass the entry itself; file imports pass Join(Dir(file), entry)
+			isURLBranch := false
+			for _, gd := range an.Guards(site.Block()) {
+				if call, ok := gd.Cond.(*ssa.Call); ok && an.ShortCallee(&call.Call) == "pkg/utils.IsURL" && gd.Outcome {
+					isURLBranch = true
+				}
+			}
+			kind := map[bool]string{true: "file", false: "dir"}[target == ld]
+			key := an.Short(g) + ":import-path"
+			if isURLBranch && target == ld {
+				c.OK("C17.3", key+"(url)", site.Pos(), "URL imports are loaded as given")
+				continue
+			}
+			good, why := true, ""
+			for _, src := range p.DeepSourcesStop(k, 3, true, stopAtFile) {
+				call, ok := src.(*ssa.Call)
+				if !ok || (an.ShortCallee(&call.Call) != "path.Join" && an.ShortCallee(&call.Call) != "path/filepath.Join") {
+					good, why = false, an.FieldProv(src)
+					continue
+				}
+				elems := an.VariadicElems(call.Call.Args[0])
+				if len(elems) < 2 {
+					good, why = false, an.FieldProv(src)
+					continue
+				}
+				if ok2, w := isDirOfImporter(elems[0]); !ok2 {
+					good, why = false, "joined with "+w+" — not the directory of the file being loaded by this activation (a value kept in the loader is overwritten by nested loads)"
+				}
+			}
+			c.Check(good, "C17.3", key+"("+kind+")", site.Pos(), kind+" imports resolve against the importing file's directory", "an imported "+kind+" is not loaded from Join(Dir(<importing file>), <entry>): "+why)
 		}
-		prov := an.FieldProv(site.Common().Args[1])
-		good := strings.HasPrefix(prov, "path.Join([path.Dir(param:"+ld.Params[1].Name()+")")
-		c.Check(good, "C17.3", an.Short(ld)+":import-path(dir)", site.Pos(), "directory imports resolve against the importing file's directory", "an imported directory is not resolved against the importing file: "+prov)
+	}
+	if nPathSites < 3 {
+		c.Und("C17.3", an.Short(ld)+":import-path", ld.Pos(), "only %d recursive load sites found under load (URL, file and directory imports expected)", nPathSites)
 	}
 	for _, site := range p.CallSitesOf(ld) {
 		if site.Parent() != ldir {
